@@ -115,6 +115,53 @@ def run(tier):
                       "%s builds a handle whose drop_fn is %s: the source keeps its own drop function and both will release the reference" % (p, mir.fmt(d)[:160]),
                       sample={"fn": p, "drop_fn": mir.fmt(d)[:100]})
     ck.floor("handle-to-handle transfers", n_tr, 3)
+    # L5b: a new handle whose `instance` is copied out of another handle value X (not obtained by Option::take and not a fresh
+    # clone) shares X's strong reference: X must be disarmed (its drop_fn/instance taken, or X forgotten) before X is dropped.
+    HANDLE_TYS = ("cglue::arc::CArc<", "cglue::arc::CArcSome<")
+    n_cp = 0
+    for p, fn in fns.items():
+        body = mir.Body(fn)
+        takes = []
+        forgets = []
+        for _, t in body.calls():
+            cp_ = mir.callee_path(t) or ""
+            if cp_.endswith("Option::<T>::take"):
+                takes.append(mir.erase_callsites(mir.deepstrip(body.origin_operand(t["args"][0]))))
+            if cp_ == "std::mem::forget":
+                forgets.append(mir.erase_callsites(mir.deepstrip(body.origin_operand(t["args"][0]))))
+        for i in sorted(body.live_blocks()):
+            for s in body.blocks[i]["s"]:
+                if s["k"] != "assign" or s["r"]["k"] != "agg" or s["r"].get("adt") not in (ARC + "CArc", ARC + "CArcSome"):
+                    continue
+                ops = dict(zip(s["r"]["fields"], [body.origin_operand(o) for o in s["r"]["ops"]]))
+                inst = mir.deepstrip(ops["instance"])
+                if inst[0] == "agg" and inst[2] == "Some" and inst[4]:
+                    inst = mir.deepstrip(inst[4][0])
+                if inst[0] == "field" and inst[2] == "0" and inst[1][0] == "downcast":
+                    inst = mir.deepstrip(inst[1][1])
+                if not (inst[0] == "field" and inst[2] == "instance"):
+                    continue
+                X = inst[1]
+                # the type of X: a handle held by value (a reference parameter is only borrowed)
+                xty = None
+                if X[0] == "arg":
+                    xty = body.locals[X[1]]["ty"]
+                elif X[0] == "call":
+                    for _, t in body.calls():
+                        if mir.callee_path(t) == X[1]:
+                            xty = t.get("dty")
+                elif X[0] == "field" and X[1][0] == "downcast":
+                    xty = "cglue::arc::CArcSome<"     # payload of Option<CArcSome>
+                if xty is None or xty.startswith("&") or not any(h in xty for h in HANDLE_TYS):
+                    continue
+                n_cp += 1
+                Xe = mir.erase_callsites(X)
+                disarmed = any(tk == ("field", Xe, "drop_fn") or tk == ("field", Xe, "instance") for tk in takes) or Xe in forgets
+                ck.ob("L5-copied-instance-source-disarmed", "cglue/%s/%s" % (p, s["r"]["adt"].split("::")[-1]), disarmed,
+                      "%s copies `instance` out of the handle value %s into a new %s but never takes that value's drop_fn/instance nor forgets it: "
+                      "when the source is dropped it releases the same strong reference the new handle will release again"
+                      % (p, mir.fmt(X)[:100], s["r"]["adt"].split("::")[-1]), sample={"fn": p, "source": mir.fmt(X)[:80]})
+    ck.floor("instance copies between handle values", n_cp, 1)
     # take(): all three fields are taken
     tk = fns.get(ARC + "CArc::<T>::take")
     if ck.require(tk is not None, "CArc::take"):
